@@ -126,7 +126,7 @@ Definition step (s : st) (m : msg) : st * list grant :=
       acquire_n (avail s) {| queue := enqueue (queue s) c rooms k; locked := locked s; avail := avail s; dead := dead s |}
   | Unlock _ r =>
       if memN r (locked s)
-      then ({| queue := queue s; locked := removeN r (locked s); avail := S (avail s); dead := dead s |}, [])
+      then acquire_lock {| queue := queue s; locked := removeN r (locked s); avail := S (avail s); dead := dead s |}
       else (s, [])
   | DropChan c k =>
       ({| queue := queue s; locked := locked s; avail := avail s; dead := (c, k) :: dead s |}, [])
